@@ -93,6 +93,18 @@ func zzvC01Configs(thorough bool) []zzvC01Cfg {
 		cfg := &telemetry.UploadConfig{GOOS: []string{"linux"}, GOARCH: []string{"amd64"}, GoVersion: []string{"go1.21.0"}, SampleRate: 1, Programs: []*telemetry.ProgramConfig{pc}}
 		out = append(out, zzvC01Cfg{fmt.Sprintf("progs=P1 repeated listings with rates %v then %v", rr[0], rr[1]), cfg})
 	}
+	// A program listed in two entries: a stack named c (rate 1) in one, the counter c (rate 0.125) in the other.
+	// Each kind keeps its own rate, whichever entry comes first.
+	for _, stackFirst := range []bool{true, false} {
+		e1 := &telemetry.ProgramConfig{Name: "example.com/p1", Versions: []string{"v1.0.0"}, Stacks: []telemetry.CounterConfig{{Name: "c", Rate: 1, Depth: 5}, {Name: "s", Rate: 0.125, Depth: 5}}}
+		e2 := &telemetry.ProgramConfig{Name: "example.com/p1", Versions: []string{"v2.0.0"}, Counters: []telemetry.CounterConfig{{Name: "c", Rate: 0.125}, {Name: "s", Rate: 1}}}
+		progs := []*telemetry.ProgramConfig{e1, e2}
+		if !stackFirst {
+			progs = []*telemetry.ProgramConfig{e2, e1}
+		}
+		cfg := &telemetry.UploadConfig{GOOS: []string{"linux"}, GOARCH: []string{"amd64"}, GoVersion: []string{"go1.21.0"}, SampleRate: 1, Programs: progs}
+		out = append(out, zzvC01Cfg{fmt.Sprintf("progs=P1 listed twice (stack entry first=%v), c and s configured as both kinds with different rates", stackFirst), cfg})
+	}
 	return out
 }
 
